@@ -1174,6 +1174,17 @@ handle_null_request(int tun_fd, int dns_fd, struct dnsfd *dns_fds, struct query 
 		} else {
 			users[userid].fragsize = max_frag_size;
 			users[userid].options_locked = 1;
+#ifdef DNSCACHE_LEN
+			{
+				/* Cached answers hold fragments cut for the old size */
+				int i;
+
+				for (i = 0; i < DNSCACHE_LEN; i++) {
+					users[userid].dnscache_q[i].id = 0;
+					users[userid].dnscache_answerlen[i] = 0;
+				}
+			}
+#endif
 			write_dns(dns_fd, q, &unpacked[1], 2, users[userid].downenc);
 		}
 		return;
